@@ -432,7 +432,29 @@ func (f *fnTrans) binop(ins *ssa.BinOp) {
 			}
 		}
 		f.bitop(ins, x, y)
-	case token.OR, token.XOR, token.AND_NOT:
+	case token.OR:
+		// a | b == a + b when a is a multiple of 2^k and 0 <= b < 2^k (disjoint bit ranges)
+		for _, pair := range [][2]ssa.Value{{ins.X, ins.Y}, {ins.Y, ins.X}} {
+			if k := trailingZeros(pair[0]); k > 0 {
+				a, b := f.val(pair[0]), f.val(pair[1])
+				if c, ok := constInt(pair[1]); ok {
+					if c.Sign() >= 0 && c.BitLen() <= k {
+						f.vals[ins] = Add(a, b)
+						return
+					}
+					continue
+				}
+				cond := And(Le(IntLit(0), b), Lt(b, IntLitStr(pow2(k))))
+				// the side condition is part of the translation: it must be provable here
+				o := f.oblige("bitor", fmt.Sprintf("operands of %s occupy disjoint bit ranges (right operand < 2^%d)", ins, k), ins.Pos(), f.allProps, f.here(), cond)
+				o.Name = fmt.Sprintf("%s/bitor#%d", f.name, f.nOb["bitor"]-1)
+				f.factOb(f.here(), cond)
+				f.vals[ins] = Add(a, b)
+				return
+			}
+		}
+		f.bitop(ins, x, y)
+	case token.XOR, token.AND_NOT:
 		f.bitop(ins, x, y)
 	default:
 		f.unsupported("binary op %s", ins.Op)
@@ -1079,4 +1101,44 @@ func (f *fnTrans) ghostSet(env *Env, loc, src string) {
 	}
 	h := "X$_$" + name
 	f.setHeap(h, Store(f.heap(h), r.T, v.T))
+}
+
+// trailingZeros: a number k such that v is certainly a multiple of 2^k (0 if unknown).
+func trailingZeros(v ssa.Value) int {
+	switch x := v.(type) {
+	case *ssa.Const:
+		if c, ok := constInt(x); ok && c.Sign() > 0 {
+			return int(c.TrailingZeroBits())
+		}
+	case *ssa.BinOp:
+		switch x.Op {
+		case token.SHL:
+			if c, ok := constInt(x.Y); ok && c.Sign() >= 0 && c.BitLen() < 8 {
+				return int(c.Int64()) + trailingZeros(x.X)
+			}
+		case token.OR, token.ADD:
+			a, b := trailingZeros(x.X), trailingZeros(x.Y)
+			if a < b {
+				return a
+			}
+			return b
+		}
+	case *ssa.Phi:
+		k := -1
+		for _, e := range x.Edges {
+			if e == ssa.Value(x) {
+				continue
+			}
+			t := trailingZeros(e)
+			if k < 0 || t < k {
+				k = t
+			}
+		}
+		if k > 0 {
+			return k
+		}
+	case *ssa.Convert:
+		return trailingZeros(x.X)
+	}
+	return 0
 }
